@@ -150,6 +150,29 @@ CLAIMS = {
                 "swallows a stage failure. It does NOT decide atomicity of a single Table.write.",
         "technique": "effect ordering and control dependence on the inlined graph of compute(); AST shape of the wrapper",
     },
+    "C15": {
+        "text": "Decides: for each of the 15 dimensional fields a mode='before' parse_units validator and a "
+                "str(Quantity(x,U)[.to(V)]) serializer with the same canonical unit U and a V convertible back; the "
+                "shape of parse_units (bare numbers in the target unit, strings/quantities converted); on the inlined "
+                "graph of compute() no configured angle/length meets an incompatible unit (incl. astropy unit labels "
+                "in the target-of-opportunity set-up); sibling agreement of month formats across validator, legacy "
+                "parser and both CLI options, the 1..12 range test and the inverted-band test; unfiltered "
+                "model_dump()/NssConfig(**loaded) symmetry and distinct literal ids of the unions. It does NOT decide "
+                "float round trip, TOML escaping or astropy's conversion values.",
+        "technique": "schema reading of the pydantic classes (AST) + sibling cross-check + unit inference on the "
+                     "value-flow graph + truth-table predicates on validator raise conditions",
+    },
+    "C16": {
+        "text": "Decides writer/reader agreement of the header schema: the header is the whole flattened model_dump() "
+                "under 'HIERARCH Config' with separator ' ' (flattener shape checked); every key config_from_fits reads "
+                "exists in the writer's key set for every union variant that can reach the read (guards on the "
+                "variant id are interpreted against the schema's literal ids); every value is read from the key that "
+                "is its own path (31 leaves); each spectrum variant is rebuilt completely; the final CLI write and the "
+                "staged writes use fits/overwrite=True and the reader opens HDU 1. It does NOT decide bit-for-bit "
+                "column round trip or header value fidelity (astropy FITS I/O).",
+        "technique": "writer key set derived from the pydantic class definitions, reader leaves and guards from the "
+                     "value-flow graph of config_from_fits, set comparison per union variant",
+    },
 }
 
 NOT_APPLICABLE = {
